@@ -42,8 +42,9 @@ func (b *BasicAuth) doAuth(ctx context.Context) error {
 	if !ok {
 		return types.ErrInvaildGRPCRequestMeta
 	}
-	passwords, ok := meta[b.username]
-	if !ok {
+	// metadata keys are lower-cased by the transport; MD.Get looks the key up the same way
+	passwords := meta.Get(b.username)
+	if len(passwords) == 0 {
 		return types.ErrInvaildGRPCUsername
 	}
 	if len(passwords) < 1 || passwords[0] != b.password {
